@@ -154,6 +154,10 @@ def main(argv):
     out = argv[argv.index('--out') + 1]
     budget = float(argv[argv.index('--budget') + 1])
     ctx = Ctx(pid, tier, seed, shard, nshards)
+    # no workload asks the backend for keys or iteration counts of a size only a corrupted request would name (see
+    # rig.bounded_key_generation): such a call cannot be interrupted and would outlive every budget
+    from kv import rig as _rig
+    _rig.bounded_key_generation().__enter__()
     all_cases = mod.cases(tier, seed)
     mine = [c for j, c in enumerate(all_cases) if j % nshards == shard]
     t0 = time.time()
